@@ -83,6 +83,7 @@ package notify
 //@   ensures [no-quiet-cancel] result2 == nil ==> result1 == alerts || (called("Context).Err") && ret("Context).Err") == nil)
 //@   ensures [success-means-delivered] result2 == nil && called("Integration).Notify") && result1 != nil ==> ret1("Integration).Notify") == nil && result1 == alerts
 //@   ensures [unrecoverable-fails] called("Integration).Notify") && ret1("Integration).Notify") != nil && !ret("Integration).Notify") ==> result2 != nil
+//@   ensures [recoverable-failure-is-retried-until-the-context-ends] called("Integration).Notify") && ret1("Integration).Notify") != nil && ret("Integration).Notify") ==> result1 == nil
 //@   ensures [input-untouched] forall j int :: 0 <= j && j < len(alerts) ==> alerts[j] == old(alerts[j])
 //@   ensures [nothing-to-send] !called("Integration).Notify") && result2 == nil && result1 != nil ==> !ret("Integration).SendResolved") && result1 == alerts
 //@   loop 1 invariant rangeindex < len(alerts) && (sent == nil || fresh(sent)) && (called("time.Now") ==> first("time.Now") <= clock()) && (!called("time.Now") ==> len(sent) == 0)
@@ -140,6 +141,10 @@ package notify
 //@             && typeis(unbox(unbox(result, FanoutStage)[k], MultiStage)[1], *DedupStage)
 //@             && typeis(unbox(unbox(result, FanoutStage)[k], MultiStage)[2], *RetryStage)
 //@             && typeis(unbox(unbox(result, FanoutStage)[k], MultiStage)[3], *SetNotifiesStage))
+// the notification-log identity of an integration is (receiver name, integration name, the integration's own index):
+// stable across reloads that add or remove other integrations; the entry is looked up and recorded under the same one
+//@   at call NewDedupStage assert [log-identity-of-this-integration] arg2 != nil && arg2.GroupName == name && arg2.Integration == ret("Integration).Name") && arg2.Idx == ret("Integration).Index") && arg1 == notificationLog
+//@   at call NewSetNotifiesStage assert [recorded-under-the-identity-it-is-looked-up-by] arg1 == recv && arg0 == notificationLog
 //@   loop 1 invariant rangeindex < len(integrations) && len(fs) == rangeindex + 1 && (fs == nil || fresh(fs))
 //@   loop 1 invariant forall k int :: 0 <= k && k <= rangeindex ==> typeis(fs[k], MultiStage) && len(unbox(fs[k], MultiStage)) == 4
 //@   loop 1 invariant forall k int :: 0 <= k && k <= rangeindex ==> typeis(unbox(fs[k], MultiStage)[0], *ClusterWaitStage)
@@ -254,7 +259,10 @@ package notify
 //@   requires hashFn != nil
 //@   assumes forall i int :: 0 <= i && i < len(alerts) ==> alerts[i] != nil
 //@   after call dynamic:param:hashFn assume res0 == hashOf(arg0)
-//@   after call Alert).Resolved assume res0 == resolvedNow(alerts[rangeindex1 + 1])
+//@   after call Alert).Resolved$ assume res0 == resolvedNow(alerts[rangeindex1 + 1]) && (arg0.EndsAt == 0 ==> !res0) && (arg0.EndsAt != 0 && arg0.EndsAt <= clock() ==> res0)
+//@   ensures [what-the-flush-froze-as-resolved-is-resolved] forall i int :: 0 <= i && i < len(alerts) && alerts[i].EndsAt != 0 && alerts[i].EndsAt <= old(clock()) ==> hashOf(alerts[i]) in result3
+//@   ensures [open-ended-alerts-are-firing] forall i int :: 0 <= i && i < len(alerts) && alerts[i].EndsAt == 0 ==> hashOf(alerts[i]) in result2
+//@   ensures [read-at-the-wall-clock-once-per-alert] count("Alert).Resolved$") == len(alerts)
 //@   at call dynamic:param:hashFn assert [hash-each-alert] arg0 == alerts[rangeindex1 + 1]
 //@   ensures [firing-hashes] forall i int :: 0 <= i && i < len(alerts) && !resolvedNow(alerts[i]) ==> hashOf(alerts[i]) in result2
 //@   ensures [resolved-hashes] forall i int :: 0 <= i && i < len(alerts) && resolvedNow(alerts[i]) ==> hashOf(alerts[i]) in result3
@@ -262,11 +270,14 @@ package notify
 //@   ensures [only-resolved] forall h uint64 :: (h in result3) ==> (exists k int :: 0 <= k && k < len(alerts) && resolvedNow(alerts[k]) && hashOf(alerts[k]) == h)
 //@   ensures [lists-agree-with-sets] len(result0) + len(result1) == len(alerts) && result2 != nil && result3 != nil
 //@   loop 1 invariant rangeindex < len(alerts) && fresh(firingSet) && fresh(resolvedSet) && firingSet != resolvedSet && len(firing) + len(resolved) == rangeindex + 1 && fresh(firing) && fresh(resolved)
+//@   loop 1 invariant count("Alert).Resolved$") == rangeindex + 1 && clock() >= old(clock())
+//@   loop 1 invariant forall i int :: 0 <= i && i <= rangeindex && alerts[i].EndsAt != 0 && alerts[i].EndsAt <= old(clock()) ==> resolvedNow(alerts[i])
+//@   loop 1 invariant forall i int :: 0 <= i && i <= rangeindex && alerts[i].EndsAt == 0 ==> !resolvedNow(alerts[i])
 //@   loop 1 invariant forall i int :: 0 <= i && i <= rangeindex && !resolvedNow(alerts[i]) ==> hashOf(alerts[i]) in firingSet
 //@   loop 1 invariant forall i int :: 0 <= i && i <= rangeindex && resolvedNow(alerts[i]) ==> hashOf(alerts[i]) in resolvedSet
 //@   loop 1 invariant forall h uint64 :: (h in firingSet) ==> (exists k int :: 0 <= k && k <= rangeindex && !resolvedNow(alerts[k]) && hashOf(alerts[k]) == h)
 //@   loop 1 invariant forall h uint64 :: (h in resolvedSet) ==> (exists k int :: 0 <= k && k <= rangeindex && resolvedNow(alerts[k]) && hashOf(alerts[k]) == h)
-//@   noeffect dynamic:param:hashFn Alert).Resolved
+//@   noeffect dynamic:param:hashFn Alert).Resolved$
 //@   assigns nothing
 //@ func (*DedupStage).Exec
 //@   props C04
